@@ -30,6 +30,8 @@ typedef struct {
 	nni_list          conaios;
 	nni_mtx           mtx;
 	nni_resolv_item   resolv;
+	bool              busy;    // resaio or conaio is in flight
+	bool              aborted; // ... and was aborted: its result is nobody's
 } tcp_dialer;
 
 static void
@@ -42,7 +44,11 @@ tcp_dial_cancel(nni_aio *aio, void *arg, nng_err rv)
 		nni_aio_list_remove(aio);
 		nni_aio_finish_error(aio, rv);
 
-		if (nni_list_empty(&d->conaios)) {
+		if (nni_list_empty(&d->conaios) && d->busy) {
+			// Nobody is waiting for the resolve or connect in
+			// flight.  Its completion must not be taken for the
+			// result of a dial that is requested meanwhile.
+			d->aborted = true;
 			nni_aio_abort(&d->conaio, NNG_ECANCELED);
 			nni_aio_abort(&d->resaio, NNG_ECANCELED);
 		}
@@ -54,8 +60,10 @@ static void
 tcp_dial_start_next(tcp_dialer *d)
 {
 	if (nni_list_empty(&d->conaios)) {
+		d->busy = false;
 		return;
 	}
+	d->busy = true;
 	memset(&d->resolv, 0, sizeof(d->resolv));
 	d->resolv.ri_family  = d->af;
 	d->resolv.ri_passive = false;
@@ -74,12 +82,22 @@ tcp_dial_res_cb(void *arg)
 	int         rv;
 
 	nni_mtx_lock(&d->mtx);
+	if (d->aborted && !d->closed) {
+		// This resolve was abandoned; start over for whoever has
+		// asked since.
+		d->aborted = false;
+		tcp_dial_start_next(d);
+		nni_mtx_unlock(&d->mtx);
+		return;
+	}
 	if (d->closed || ((aio = nni_list_first(&d->conaios)) == NULL)) {
 		// ignore this.
 		while ((aio = nni_list_first(&d->conaios)) != NULL) {
 			nni_list_remove(&d->conaios, aio);
 			nni_aio_finish_error(aio, NNG_ECLOSED);
 		}
+		d->busy    = false;
+		d->aborted = false;
 		nni_mtx_unlock(&d->mtx);
 		return;
 	}
@@ -107,13 +125,21 @@ tcp_dial_con_cb(void *arg)
 
 	nni_mtx_lock(&d->mtx);
 	rv = nni_aio_result(&d->conaio);
-	if ((d->closed) || ((aio = nni_list_first(&d->conaios)) == NULL)) {
+	if ((d->closed) || (d->aborted) ||
+	    ((aio = nni_list_first(&d->conaios)) == NULL)) {
+		bool again = d->aborted && !d->closed;
 		if (rv == 0) {
 			// Make sure we discard the underlying connection.
 			nng_stream_close(nni_aio_get_output(&d->conaio, 0));
 			nng_stream_stop(nni_aio_get_output(&d->conaio, 0));
 			nng_stream_free(nni_aio_get_output(&d->conaio, 0));
 			nni_aio_set_output(&d->conaio, 0, NULL);
+		}
+		d->aborted = false;
+		d->busy    = false;
+		if (again) {
+			// the abandoned connect is over; serve later requests
+			tcp_dial_start_next(d);
 		}
 		nni_mtx_unlock(&d->mtx);
 		return;
@@ -196,7 +222,7 @@ tcp_dialer_dial(void *arg, nng_aio *aio)
 		return;
 	}
 	nni_list_append(&d->conaios, aio);
-	if (nni_list_first(&d->conaios) == aio) {
+	if ((nni_list_first(&d->conaios) == aio) && (!d->busy)) {
 		tcp_dial_start_next(d);
 	}
 	nni_mtx_unlock(&d->mtx);
